@@ -789,6 +789,7 @@ func ruleFootnoteNumbering(w *World, r *Report) {
 	// references: RefIndex = running count (load of map[Index] before increment), RefCount = counter[Index]
 	nRef := 0
 	okRef := false
+	mapTwice := ""
 	for _, st := range w.storesToField(linkT, "RefIndex") {
 		if isCtor(st.Parent()) {
 			continue
@@ -816,6 +817,36 @@ func ruleFootnoteNumbering(w *World, r *Report) {
 						if bo, ok := mu.Value.(*ssa.BinOp); ok && bo.Op == token.ADD {
 							if c, ok := constInt(bo.Y); ok && c == 1 {
 								okRef = true
+								// one table per document: the map the running counts live in is made once per Transform — not
+								// inside a loop, and not in a helper that the transformer calls more than once
+								if mk, isMk := throughCell(lk.X).(*ssa.MakeMap); isMk {
+									fnMk := mk.Parent()
+									loops, _ := naturalLoops(fnMk)
+									for _, l := range loops {
+										if l.body[mk.Block()] {
+											mapTwice = "the table of running counts is allocated inside a loop (" + w.InstrPos(mk) + ")"
+										}
+									}
+									if fnMk != tf {
+										calls := 0
+										tl, _ := naturalLoops(tf)
+										for _, b := range tf.Blocks {
+											for _, ins := range b.Instrs {
+												if c, ok := ins.(*ssa.Call); ok && c.Common().StaticCallee() == fnMk {
+													calls++
+													for _, l := range tl {
+														if l.body[b] {
+															calls++
+														}
+													}
+												}
+											}
+										}
+										if calls > 1 {
+											mapTwice = fmt.Sprintf("the table of running counts is allocated in %s, which the transformer calls %d times (or in a loop): each call starts counting at 0 again", w.FnKey(fnMk), calls)
+										}
+									}
+								}
 							}
 						}
 					}
@@ -823,7 +854,9 @@ func ruleFootnoteNumbering(w *World, r *Report) {
 			}
 		}
 	}
-	if nRef == 1 && okRef {
+	if nRef == 1 && okRef && mapTwice != "" {
+		r.Bad(key+": references numbered by a running count per Index", w.FnPos(tf), mapTwice+": two references to the same footnote get the same ordinal, so their ids collide and back-links point at ids that do not exist")
+	} else if nRef == 1 && okRef {
 		r.OK(key+": references numbered by a running count per Index", w.FnPos(tf), "RefIndex = seen[Index]; seen[Index]++")
 	} else {
 		r.Bad(key+": references numbered by a running count per Index", w.FnPos(tf), fmt.Sprintf("%d stores to FootnoteLink.RefIndex; running-count discipline recognised: %v", nRef, okRef))
